@@ -102,6 +102,7 @@ BUDGET_S = 8 * 60
 # design-level invariant the code's choices break -> (named deviation, switch whose FALSE value repairs it or None)
 BROKEN = {
     "NoWorkOnClosed": ("D1 an append on a context that was closed after the handler's lookup answers ok (the entry is in the log and is found after the next activation)", "SendOnClosedOk", True),
+    "ViewIsLog": ("D1' the entry such a stale send appended to the closed context is the cached head but is not in the log of a context opened meanwhile: that context's listing misses an acknowledged send, and its own next append cuts the entry off for good", "SendOnClosedOk", False),
     "OpenIsOpened": ("D2 deactivateGroup closes the context it looked up before taking the lock but deletes whatever openedGroups holds when it has the lock (and clears accountGroupCtx): deactivate || (deactivate; activate) leaves a live, activated context that is not in openedGroups", "StaleDeactDeletes", False),
     "StreamFollows": ("D3 an open-ended listing subscribed before a deactivation neither ends nor follows the group to its next context: it ends when its client goes away", None, False),
     "SingleHandler": ("D4 activating a group that is already open calls ActivateGroupContext on the same context again: one more handler goroutine and peer tagger per call, every event handled once per call", "ReactivateStacks", False),
@@ -123,7 +124,7 @@ CLAUSE_TEXT = {
     "L1": "after the service was closed no goroutine of the package is left and Close returned",
     "P1": "no request makes a service method panic (C19)",
 }
-EXPLAINED = {"O3": "D2/D5", "O4": "D1", "O7": "D4", "O8": "D3"}
+EXPLAINED = {"O3": "D2/D5", "O4": "D1", "O5": "D1'", "O7": "D4", "O8": "D3"}
 
 
 def _set(xs):
@@ -148,6 +149,7 @@ CANCEL = {"act": "cancel"}
 NAMED = [
     ("basic lifecycle, serial", [run(("info", "A")), run(("info", "M")), run(("info", "C")), run(("act", "C")), run(("sendm", "C")), run(("accept",)), run(("join",)), run(("act", "M")), run(("sendm", "M")), run(("sendd", "M")), run(("listd", "M")), run(("deact", "M")), run(("sendm", "M")), run(("act", "M")), run(("listm", "M")), run(("act", "M")), run(("deact", "A")), run(("act", "C")), run(("info", "C")), run(("accept",)), run(("act", "A")), run(("join",)), run(("close",))]),
     ("D1 send parked after its lookup, group deactivated, append on the closed context", [run(("join",)), run(("act", "M")), st(1, "sendm", "M"), st(2, "deact", "M"), sp(2), sp(1), st(1, "sendd", "M"), st(2, "act", "M"), sp(2), st(1, "sendd", "M"), st(2, "deact", "M"), sp(2), sp(1), st(2, "act", "M"), sp(2), st(2, "listd", "M")]),
+    ("D1' stale send after the group was activated again: invisible to the new context, cut off by its next append, lost after the next cycle", [st(1, "sendm", "A"), st(2, "deact", "A"), sp(2), st(2, "act", "A"), sp(2), sp(1), run(("listm", "A")), run(("sendm", "A")), run(("listm", "A")), run(("deact", "A")), run(("act", "A")), run(("listm", "A"))]),
     ("D2 stale deactivate deletes the newer context's entry (multi-member group)", [run(("join",)), run(("act", "M")), run(("sendm", "M")), st(1, "deact", "M"), st(2, "deact", "M"), sp(2), st(2, "act", "M"), sp(2), sp(1), st(1, "sendm", "M"), st(1, "act", "M"), sp(1), st(1, "sendm", "M"), sp(1)]),
     ("D2 the same on the account group: accountGroupCtx nil beside a live account context", [st(1, "deact", "A"), st(2, "deact", "A"), sp(2), st(2, "act", "A"), sp(2), sp(1), st(1, "accept"), st(1, "act", "A"), sp(1), st(1, "accept")]),
     ("D3 open-ended listing across deactivate / activate / Close", [run(("join",)), run(("act", "M")), st(1, "sub", "M"), run(("sendm", "M")), run(("deact", "M")), run(("act", "M")), run(("sendm", "M")), CANCEL, st(1, "sub", "M"), run(("sendm", "M")), run(("close",))]),
